@@ -37,6 +37,7 @@ Z_MODELS: dict[str, dict[str, Any]] = {
     "VMixed": {"kinds": [{"v": "int"}], "layouts": [{"first": "one", "items": n, "one": o} for n in (0, 1, 2) for o in (None, "one")]},
     "VAbAc": {"kinds": [{}], "layouts": [{"ab": a, "ac": c} for a in (None, "one") for c in (None, "one")]},
     "VPair": {"kinds": [{}], "layouts": [{"pair": 2}]},
+    "VFlags": {"kinds": [{"h": "int", "k": "int"}], "layouts": [{}]},
 }
 TYPE_CASES = [("VLeaf", "v", ["int", "bool", "str", "none"]), ("VRich", "n", ["none", "int", "str"])]
 
@@ -129,7 +130,8 @@ def _solve_obligation(ob: dict[str, Any], str_bound: int, timeout: float) -> Obl
         for v in list(L.props.values()) + list(Rr.props.values()):
             if v.kind == "str":
                 extra.append(f'(assert (not (str.contains {v.name} ")")))')
-    q = emit.query(L, Rr, "content", content_differs=diff, extra_equal=eq, str_bound=str_bound, extra_asserts=extra)
+    also = [v for v in list(L.props.values()) + list(Rr.props.values()) if v.kind != "none"] + [c.content_id for c in list(L.children.values()) + list(Rr.children.values())]
+    q = emit.query(L, Rr, "content", content_differs=diff, extra_equal=eq, str_bound=str_bound, extra_asserts=extra, also_declare=also)
     res = solvers.solve(ob["name"], q, timeout, cross_timeout=4)
     o = Obligation(ob["name"], "Z", "inconclusive", seconds=res["seconds"], solver=f"cvc5={res['cvc5']}({res['cvc5_s']}s) z3={res['z3']}({res['z3_s']}s)", queries=2)
     o.detail = {"preimage_left": emit.term(L.content)[:300], "note": res["note"]}
@@ -496,6 +498,14 @@ SPECIAL_PAIRS = [
     ("float-vs-int-in-optional", R("VRich", {"n": 7.0}), R("VRich", {"n": 7})),
     ("int-vs-float", R("VRich", {"i": 1}), R("VRich", {"i": 1.0})),
     ("none-vs-string-None", R("VRich", {"n": None}), R("VRich", {"n": "None"})),
+    ("field-flag-hash-false", R("VFlags", {"h": 1}), R("VFlags", {"h": 2})),
+    ("field-flag-repr-false", R("VFlags", {"r": 1}), R("VFlags", {"r": 2})),
+    ("field-flag-metadata", R("VFlags", {"m": 1}), R("VFlags", {"m": 2})),
+    ("field-flag-default-factory", R("VFlags", {"d": 1}), R("VFlags", {"d": 2})),
+    ("field-flag-kw-only", R("VFlags", {"k": 1}), R("VFlags", {"k": 2})),
+    ("field-flag-hash-true-compare-false", R("VFlags", {"nh": 1}), R("VFlags", {"nh": 2})),
+    ("field-flag-hash-false-below-a-parent", R("VMany", items=(R("VFlags", {"h": 1}),)), R("VMany", items=(R("VFlags", {"h": 2}),))),
+    ("field-flag-values-swapped", R("VFlags", {"h": 1, "r": 2}), R("VFlags", {"h": 2, "r": 1})),
     ("separator-strings", R("VStr2", {"a": "1):b=<class 'str'>(2", "b": "3"}), R("VStr2", {"a": "1", "b": "2):b=<class 'str'>(3"})),
 ]
 
@@ -574,10 +584,10 @@ def field_order_harness(e):
     from models.zoo import VLeaf
 
     ref_src = src.replace("".join(f"    {decl[f]}\n" for f in order), "".join(f"    {decl[f]}\n" for f in ("a", "b", "kid")))
-    exec(compile(ref_src, "vgen_perm", "exec"), mod.__dict__)
+    exec(compile(ref_src, "vgen_perm", "exec", dont_inherit=True), mod.__dict__)
     ref_cls = mod.__dict__["VPermuted"]
     ref = ref_cls(a=3, b="x", kid=VLeaf(v=1))
-    exec(compile(src, "vgen_perm", "exec"), mod.__dict__)
+    exec(compile(src, "vgen_perm", "exec", dont_inherit=True), mod.__dict__)
     cls = mod.__dict__["VPermuted"]
     node = cls(a=3, b="x", kid=VLeaf(v=1))
     if node.content_id != ref.content_id:
